@@ -403,6 +403,27 @@ func (e *Engine) evalInstr(st *State, th *Thread, fr *Frame, in ssa.Value, sol *
 			if it.Idx >= it.StrLen {
 				return set(Tuple{False, BVC(0, 64), BVC(0, 32)})
 			}
+			if ByteMode {
+				// UTF-8 decoding: fork over the well-formed sequence classes that fit, plus "ill-formed"
+				conds, runes, widths := utf8DecodeAt(it.Str, it.Idx, it.StrLen)
+				key := fmt.Sprintf("u8:%s@%d", it.Str.SMT(), it.Idx)
+				k, decided := st.Conc[key]
+				if !decided {
+					succ := e.forkOn(st, sol, conds, func(i int, s *State) {
+						nc := make(map[string]int64, len(s.Conc)+1)
+						for kk, v := range s.Conc {
+							nc[kk] = v
+						}
+						nc[key] = int64(i)
+						s.Conc = nc
+					})
+					return succ, false
+				}
+				nit := *it
+				nit.Idx += widths[k]
+				e.setLocal(fr, x.Iter, &nit)
+				return set(Tuple{True, BVC(uint64(it.Idx), 64), runes[k]})
+			}
 			ch := IntToBV(StrToCode(StrAt(it.Str, IntC(int64(it.Idx)))), 32)
 			nit := *it
 			nit.Idx++
